@@ -1,7 +1,7 @@
 (* C14 - property theorems. Only statements, each closed by `exact <lemma>` from the Proofs files,
    Print Assumptions beneath, and the non-vacuity examples. *)
 From Coq Require Import ZArith List Bool.
-From C14 Require Import Model ProofsBits ProofsDist.
+From C14 Require Import Model ProofsBits ProofsDist ProofsBorders.
 Import ListNotations.
 Open Scope Z_scope.
 
@@ -53,6 +53,46 @@ Theorem C14_intersect_sound : forall creation docs m qf qt,
 Proof. exact intersect_sound. Qed.
 Print Assumptions C14_intersect_sound.
 
+(* Adequacy of the fuel and meaning of util.BinSearchInRange (sort.Search): for a monotone
+   predicate the result is the least position of [from, to] where it holds, or to + 1; the model's
+   fuel is never exhausted. *)
+Theorem C14_bin_search_spec : forall from to f,
+  from <= to + 1 -> mono_on f from (to + 1) ->
+  exists k, bin_search_in_range from to f = Some k /\ from <= k <= to + 1 /\
+            (forall x, from <= x < k -> f x = false) /\ (forall x, k <= x <= to -> f x = true).
+Proof. exact bin_search_spec. Qed.
+Print Assumptions C14_bin_search_spec.
+
+(* LID borders (getLIDsBorders over a descending ID table): the scan narrowed to [minLID, maxLID]
+   examines exactly the documents whose MID lies in [qf, qt] - also for MIDs equal to the range
+   ends, RIDs 0 and MaxUint64, duplicates, empty fractions. Hypothesis (DESIGN section 9 #14): the ID (0,0)
+   is not stored when the query starts at 0. *)
+Theorem C14_lid_borders_exact : forall f qf qt,
+  ids_ok (f_ids f) -> desc_sorted (f_ids f) -> 0 <= qf -> (qf = 0 -> ~ In (0, 0) (f_ids f)) ->
+  frac_scan f qf qt = Some (filter (in_range qf qt) (f_ids f)).
+Proof. exact frac_scan_spec. Qed.
+Print Assumptions C14_lid_borders_exact.
+
+(* thm:C14_pruning_is_optimisation. Skipping fractions by FilterInRange (borders + occupancy map)
+   and narrowing every remaining fraction to its LID borders examines exactly the documents that
+   examining every document of every fraction would: same documents, same order, for every list
+   of fractions (active or sealed, any creation time, any spread of document times). *)
+Theorem C14_pruning_is_optimisation : forall fs qf qt,
+  Forall frac_ok fs -> 0 <= qf -> qt < two63 ->
+  (qf = 0 -> forall f, In f fs -> ~ In (0, 0) (f_ids f)) ->
+  pruned_scan fs qf qt = Some (full_scan fs qf qt).
+Proof. exact pruning_is_optimisation. Qed.
+Print Assumptions C14_pruning_is_optimisation.
+
+(* Fetch side (groupIDsByFraction): the fraction that stores a requested document survives
+   FilterInRange(min, max) of the requested IDs and answers Contains(mid) = true. *)
+Theorem C14_fetch_candidates_sound : forall f x lo hi,
+  frac_ok f -> In x (f_ids f) -> 0 <= lo -> lo <= fst x -> fst x <= hi -> hi < two63 ->
+  info_is_intersecting (f_info f) lo hi = true /\
+  info_is_intersecting (f_info f) (fst x) (fst x) = true.
+Proof. exact fetch_candidates_sound. Qed.
+Print Assumptions C14_fetch_candidates_sound.
+
 (* ---------------------------------------------------------------- non-vacuity *)
 (* dist_wf is inhabited by what NewMIDsDistribution builds *)
 Example C14_wf_witness : dist_wf (dist_new 1750000000000 1750003600000 bucket_ns).
@@ -73,4 +113,53 @@ Proof.
   split. { intros x [<-|[<-|[]]]; unfold two63; split; try discriminate; reflexivity. }
   split. { eexists. vm_compute. reflexivity. }
   split; vm_compute; reflexivity.
+Qed.
+
+(* frac_ok is inhabited: a sealed fraction with a real distribution and two documents *)
+Example C14_frac_ok_witness :
+  let c := 1750000000000 in
+  let ids := [(c - 60000, 7); (c - 3600000, 0)] in
+  frac_ok {| f_info := sealed_info c (mids_of ids); f_ids := ids |}.
+Proof.
+  cbv zeta. constructor; simpl.
+  - intros x [<-|[<-|[]]]; unfold id_ok, two64; simpl; repeat split; try discriminate; reflexivity.
+  - intros a b Hab Hb. simpl in Hb.
+    destruct a as [|[|a]]; destruct b as [|[|b]]; try reflexivity;
+      try (exfalso; apply (Nat.nle_succ_0 _ Hab));
+      try (exfalso; apply Nat.succ_le_mono in Hab; apply (Nat.nle_succ_0 _ Hab));
+      exfalso; do 2 apply Nat.succ_lt_mono in Hb; apply (Nat.nlt_0_r _ Hb).
+  - intros x [<-|[<-|[]]]; unfold two63; split; try discriminate; reflexivity.
+  - exists 1750000000000. split; [unfold is_u64, two64; split; [discriminate|reflexivity]|].
+    right. reflexivity.
+Qed.
+
+(* DESIGN section 9 #14, kept as documentation: without the hypothesis on the ID (0,0) the border
+   computation loses that document for a query starting at 0 (unreachable through ingest). *)
+Example C14_borders_zero_id_refuted :
+  exists f qf qt, ids_ok (f_ids f) /\ desc_sorted (f_ids f) /\ 0 <= qf /\
+    frac_scan f qf qt <> Some (filter (in_range qf qt) (f_ids f)).
+Proof.
+  exists {| f_info := active_info 5 [0]; f_ids := [(0, 0)] |}, 0, 10.
+  split. { intros x [<-|[]]. unfold id_ok, two64. simpl. repeat split; try discriminate; reflexivity. }
+  split. { intros a b Hab Hb. simpl in Hb. destruct b; [|exfalso; apply Nat.succ_lt_mono in Hb; apply (Nat.nlt_0_r _ Hb)].
+           destruct a; [reflexivity|exfalso; apply (Nat.nle_succ_0 _ Hab)]. }
+  split. { discriminate. }
+  vm_compute. discriminate.
+Qed.
+
+(* The hypothesis qt < 2^63 is necessary: with the query end at MaxUint64 ("no upper bound", as
+   tests/setup/env.go searches) and the start inside the distribution window, midToIndex(to) = 0
+   (int64(to) = -1 lies before the window) and the occupancy test rejects a fraction whose
+   document lies in the range. Reproduced on the real code by the driver (class
+   info-witness-to>=2^63: implementation and model agree on `false`). *)
+Example C14_query_end_above_int63_refuted :
+  let c := 1750000000000 in
+  let docs := [c - 3600000] in
+  is_u64 c /\ docs_ok docs /\ c - 3600000 <= c - 3600000 <= u64max /\
+  info_is_intersecting (sealed_info c docs) (c - 3600000) u64max = false.
+Proof.
+  cbv zeta. split; [unfold is_u64, two64; split; [discriminate|reflexivity]|].
+  split. { intros x [<-|[]]; unfold two63; split; try discriminate; reflexivity. }
+  split. { unfold u64max, two64. split; [apply Z.le_refl|discriminate]. }
+  vm_compute. reflexivity.
 Qed.
